@@ -1,7 +1,11 @@
 (* Proofs about the tensor weights of the combination technique (Model/TensorWeights.v).
    (a) the in-place backward sweep on a line gives b_i = a_i - a_{i+1};
    (b) on every lower, lexicographically sorted set the weights of tw_lines are the inclusion-exclusion values;
-   (c) they sum to 1; inactive tensors have weight 0.   No axioms. *)
+   (c) they sum to 1; inactive tensors have weight 0; sum_t w(t) V(t) = sum_t (mixed backward difference of V)(t) for every family V
+       (summation by parts in every direction);
+   (a, by position) the in-place sweep of tw_cpp over the positions of a line is the sweep of its values.
+   NOT proved: tw_cpp = tw_lines (the sorted position maps and runs of resortIndexes compute the lines of tw_lines); both are compared with
+   the implementation on every case of the tie.   No axioms. *)
 From TV Require Import Common.Prelude Model.IndexSets Model.TensorWeights.
 From TV Require Import Proofs.IndexSetsProofs Proofs.CombinationProofs Proofs.TensorSelectProofs.
 From Coq Require Import Sorting.Sorted.
@@ -460,13 +464,6 @@ Qed.
 
 From Coq Require Import Permutation.
 (* ================================================================ (c) the weights of a lower set sum to 1 *)
-Fixpoint unbump (d : nat) (t : idx) : idx :=
-  match t, d with
-  | [], _ => []
-  | x :: r, O => (x - 1) :: r
-  | x :: r, S d' => x :: unbump d' r
-  end.
-
 Lemma bump_unbump d : forall t, bump d (unbump d t) = t.
 Proof. induction d as [|d IH]; intros [|x r]; cbn; try reflexivity; [f_equal; lia|rewrite IH; reflexivity]. Qed.
 
@@ -605,3 +602,141 @@ Section Sum.
     rewrite (chi_in _ _ HZ). reflexivity.
   Qed.
 End Sum.
+
+(* ================================================================ (a) for the sweep by position of tw_cpp *)
+Lemma set_pos_length w : forall p v, length (set_pos w p v) = length w.
+Proof. induction w as [|x w IH]; intros [|p] v; cbn; try reflexivity. rewrite IH. reflexivity. Qed.
+
+Lemma nth_set_pos_same w : forall p v, (p < length w)%nat -> nth p (set_pos w p v) 0 = v.
+Proof. induction w as [|x w IH]; intros p v H; [cbn in H; lia|]. destruct p as [|p]; cbn; [reflexivity|]. apply IH. cbn in H. lia. Qed.
+
+Lemma nth_set_pos_other w : forall p q v, q <> p -> nth q (set_pos w p v) 0 = nth q w 0.
+Proof.
+  induction w as [|x w IH]; intros [|p] [|q] v H; cbn; try reflexivity; try congruence. apply IH. congruence.
+Qed.
+
+Lemma sweep_line_length ps : forall w, length (sweep_line ps w) = length w.
+Proof.
+  induction ps as [|p rest IH]; intros w; [reflexivity|]. cbn [sweep_line]. destruct rest as [|q r]; [apply IH|].
+  rewrite set_pos_length. apply IH.
+Qed.
+
+Lemma sweep_line_untouched ps : forall w q, ~ In q ps -> nth q (sweep_line ps w) 0 = nth q w 0.
+Proof.
+  induction ps as [|p rest IH]; intros w q H; [reflexivity|]. cbn [sweep_line].
+  assert (Hr : ~ In q rest) by (intro Hq; apply H; right; exact Hq).
+  destruct rest as [|q' r]; [apply IH; exact Hr|].
+  rewrite nth_set_pos_other by (intro E; apply H; left; congruence). apply IH. exact Hr.
+Qed.
+
+(* the in-place sweep over the positions ps of one line of the weight vector w is the sweep of the values of the line *)
+Lemma sweep_line_vals ps : forall w, NoDup ps -> (forall p, In p ps -> (p < length w)%nat) ->
+  map (fun p => nth p (sweep_line ps w) 0) ps = sweep_vals (map (fun p => nth p w 0) ps).
+Proof.
+  induction ps as [|p rest IH]; intros w Hnd Hin; [reflexivity|].
+  inversion Hnd as [|? ? Hnot Hnd']; subst.
+  assert (Hin' : forall q, In q rest -> (q < length w)%nat) by (intros q Hq; apply Hin; right; exact Hq).
+  specialize (IH w Hnd' Hin').
+  cbn [sweep_line map sweep_vals]. destruct rest as [|q r].
+  - reflexivity.
+  - set (rest := q :: r) in *. set (w' := sweep_line rest w) in *.
+    assert (Hmap : map (fun p0 => nth p0 (set_pos w' p (nth p w' 0 - zsum (map (fun q0 => nth q0 w' 0) rest))) 0) rest
+                   = map (fun p0 => nth p0 w' 0) rest).
+    { apply map_ext_in. intros a Ha. apply nth_set_pos_other. intro E. subst. contradiction. }
+    change (map (fun p0 => nth p0 w 0) rest) with (map (fun p0 => nth p0 w 0) (q :: r)) in *.
+    destruct (map (fun p0 => nth p0 w 0) (q :: r)) as [|y ys] eqn:EM; [discriminate|].
+    cbn [map]. rewrite Hmap. rewrite nth_set_pos_same by (unfold w'; rewrite sweep_line_length; apply Hin; left; reflexivity).
+    unfold w' at 1. rewrite sweep_line_untouched by exact Hnot. rewrite IH. reflexivity.
+Qed.
+
+Lemma sweep_line_spec ps w : NoDup ps -> (forall p, In p ps -> (p < length w)%nat) ->
+  length (sweep_line ps w) = length w /\
+  map (fun p => nth p (sweep_line ps w) 0) ps = sweep_vals (map (fun p => nth p w 0) ps) /\
+  (forall q, ~ In q ps -> nth q (sweep_line ps w) 0 = nth q w 0).
+Proof.
+  intros Hnd Hin. split; [apply sweep_line_length|]. split; [apply sweep_line_vals; assumption|]. intros q Hq. apply sweep_line_untouched. exact Hq.
+Qed.
+
+(* ================================================================ (c') combination technique = sum of the mixed backward differences *)
+Lemma unbump_bump d : forall t, unbump d (bump d t) = t.
+Proof. induction d as [|d IH]; intros [|x r]; cbn; try reflexivity; [f_equal; lia|rewrite IH; reflexivity]. Qed.
+
+Lemma map2_map_mul {A} (f g : A -> Z) l : map2 Z.mul (map f l) (map g l) = map (fun t => f t * g t) l.
+Proof. induction l as [|x l IH]; [reflexivity|]. cbn. rewrite IH. reflexivity. Qed.
+
+Section Parts.
+  Variable D : nat.
+  Variable Theta : list idx.
+  Hypothesis Hsorted : sorted Theta.
+  Hypothesis Hwf : wf D Theta.
+  Hypothesis Hnonneg : forall t, In t Theta -> nonneg t.
+  Hypothesis Hlower : lowerZ Theta.
+
+  Let inb := inb Theta.
+
+  Lemma shift_perm_all k : (k < D)%nat ->
+    Permutation (map (bump k) (filter (fun t => inb (bump k t)) Theta)) (filter (fun s => negb (nth k s 0 =? 0)) Theta).
+  Proof.
+    intros Hk. pose proof (sorted_nodup _ Hsorted) as Hnd. apply NoDup_Permutation.
+    - apply FinFun.Injective_map_NoDup; [intros a b; apply bump_inj|]. apply NoDup_filter. exact Hnd.
+    - apply NoDup_filter. exact Hnd.
+    - intros s. rewrite in_map_iff. rewrite filter_In. split.
+      + intros [t [<- Ht]]. apply filter_In in Ht. destruct Ht as [Ht Hb]. apply inb_true in Hb.
+        split; [exact Hb|]. rewrite nth_bump by (rewrite (Theta_len D Theta Hwf t Ht); exact Hk).
+        pose proof (Hnonneg t Ht) as Hn. unfold nonneg in Hn. rewrite Forall_forall in Hn.
+        assert (0 <= nth k t 0) by (apply Hn; apply nth_In; rewrite (Theta_len D Theta Hwf t Ht); exact Hk). lia.
+      + intros [Hs Hq]. exists (unbump k s).
+        assert (Hu : In (unbump k s) Theta).
+        { apply (Hlower s _ Hs). apply le_unbump; [apply Hnonneg; exact Hs|].
+          pose proof (Hnonneg s Hs) as Hn. unfold nonneg in Hn. rewrite Forall_forall in Hn.
+          assert (0 <= nth k s 0) by (apply Hn; apply nth_In; rewrite (Theta_len D Theta Hwf s Hs); exact Hk). lia. }
+        split; [apply bump_unbump|]. apply filter_In. split; [exact Hu|]. rewrite bump_unbump. apply inb_true. exact Hs.
+  Qed.
+
+  (* summation by parts in direction k *)
+  Lemma parts_step k (G V : idx -> Z) : (k < D)%nat -> (forall u, nonneg u -> ~ In u Theta -> G u = 0) ->
+    zsum (map (fun t => (G t - G (bump k t)) * V t) Theta) = zsum (map (fun t => G t * back_diff k V t) Theta).
+  Proof.
+    intros Hk Hz.
+    assert (E1 : zsum (map (fun t => (G t - G (bump k t)) * V t) Theta)
+                 = zsum (map (fun t => G t * V t) Theta) - zsum (map (fun t => G (bump k t) * V t) Theta)).
+    { rewrite zsum_map_sub. f_equal. apply map_ext. intros t. ring. }
+    assert (E2 : zsum (map (fun t => G t * back_diff k V t) Theta)
+                 = zsum (map (fun t => G t * V t) Theta) - zsum (map (fun t => G t * (if nth k t 0 =? 0 then 0 else V (unbump k t))) Theta)).
+    { rewrite zsum_map_sub. f_equal. apply map_ext. intros t. unfold back_diff. ring. }
+    rewrite E1, E2. f_equal.
+    rewrite (zsum_filter_split (fun t => G (bump k t) * V t) (fun t => inb (bump k t)) Theta).
+    rewrite (zsum_map_zero_in _ (filter (fun x => negb (inb (bump k x))) Theta)).
+    2:{ intros t Ht. apply filter_In in Ht. destruct Ht as [Ht Hb].
+        rewrite Hz; [ring|apply nonneg_bump; apply Hnonneg; exact Ht|].
+        intro Hin. apply inb_true in Hin. unfold inb in Hb. rewrite Hin in Hb. discriminate. }
+    rewrite (zsum_filter_split (fun t => G t * (if nth k t 0 =? 0 then 0 else V (unbump k t))) (fun t => negb (nth k t 0 =? 0)) Theta).
+    rewrite (zsum_map_zero_in _ (filter (fun x => negb (negb (nth k x 0 =? 0))) Theta)).
+    2:{ intros t Ht. apply filter_In in Ht. destruct Ht as [_ Hb]. destruct (nth k t 0 =? 0); [ring|discriminate]. }
+    f_equal.
+    transitivity (zsum (map (fun s => G s * (if nth k s 0 =? 0 then 0 else V (unbump k s))) (map (bump k) (filter (fun t => inb (bump k t)) Theta)))).
+    2:{ apply zsum_perm. apply shift_perm_all. exact Hk. }
+    rewrite map_map. f_equal. apply map_ext_in. intros t Ht. apply filter_In in Ht. destruct Ht as [Ht Hb].
+    rewrite unbump_bump. rewrite nth_bump by (rewrite (Theta_len D Theta Hwf t Ht); exact Hk).
+    pose proof (Hnonneg t Ht) as Hn. unfold nonneg in Hn. rewrite Forall_forall in Hn.
+    assert (0 <= nth k t 0) by (apply Hn; apply nth_In; rewrite (Theta_len D Theta Hwf t Ht); exact Hk).
+    assert (nth k t 0 + 1 =? 0 = false) as -> by lia. reflexivity.
+  Qed.
+
+  Lemma parts_all : forall n k V, (k + n = D)%nat ->
+    zsum (map (fun t => iter_diff (chi Theta) (seq k n) t * V t) Theta) = zsum (map (iter_back V (seq k n)) Theta).
+  Proof.
+    induction n as [|n IH]; intros k V Hkn.
+    - cbn [seq iter_diff iter_back]. f_equal. apply map_ext_in. intros t Ht. rewrite (chi_in _ _ Ht). ring.
+    - cbn [seq iter_diff iter_back]. rewrite <- (IH (S k) (back_diff k V)) by lia.
+      apply (parts_step k (iter_diff (chi Theta) (seq (S k) n)) V); [lia|].
+      intros u Hu Hnot. apply (iter_diff_zero_outside Theta Hlower); assumption.
+  Qed.
+
+  Theorem weights_mixed_differences (V : idx -> Z) : (1 <= D)%nat -> Theta <> [] ->
+    zsum (map2 Z.mul (tw_lines Theta) (map V Theta)) = zsum (map (iter_back V (seq 0 D)) Theta).
+  Proof.
+    intros HD Hne. rewrite (tw_lines_iter_diff D Theta Hsorted Hwf Hnonneg Hlower HD Hne).
+    rewrite map2_map_mul. unfold chiT. apply (parts_all D 0 V). lia.
+  Qed.
+End Parts.
